@@ -268,6 +268,7 @@ macro_rules! c11_history {
                     let v = &h.vrings[k];
                     let active = vr::is_active(v);
                     assert!(active == (rr[k].started && rr[k].enabled), "C11: started/enabled state follows the protocol");
+                    assert!(vr::is_started(v) == rr[k].started && vr::is_enabled(v) == rr[k].enabled, "C11: started and enabled flags individually follow the protocol");
                     assert!(vr::kick_fd(v) == rr[k].kick, "C11: current kick descriptor");
                     if let Some(fd) = rr[k].kick {
                         let reg = vgm::registered(epfd, fd);
@@ -434,7 +435,8 @@ macro_rules! c11_step {
             let mut k = 0;
             while k < 2 {
                 let v = &h.vrings[k];
-                assert!(vr::is_active(v) == (rr[k].started && rr[k].enabled), "C11: started/enabled state follows the protocol");
+                assert!(vr::is_started(v) == rr[k].started, "C11: ring started by its kick descriptor, stopped by GET_VRING_BASE only");
+                assert!(vr::is_enabled(v) == rr[k].enabled, "C11: ring enabled/disabled exactly by SET_FEATURES without PF, SET_VRING_ENABLE, RESET_DEVICE");
                 assert!(vr::kick_fd(v) == rr[k].kick, "C11: current kick descriptor");
                 if let Some(fd) = rr[k].kick {
                     let reg = vgm::registered(epfd, fd);
